@@ -672,7 +672,16 @@ bool dispatch_api(State& st, const std::string& op, const json& a, json& ret)
     }
     if (op == "snapshot")
     {
-        ret = snapshot_to_json(st.T(a.at("t").get<std::string>()).snapshot());
+        st.last_snapshot = st.T(a.at("t").get<std::string>()).snapshot();
+        ret = snapshot_to_json(*st.last_snapshot);
+        return true;
+    }
+    if (op == "update_last")
+    {
+        // writes the snapshot most recently read back (by the "snapshot" op)
+        if (!st.last_snapshot) throw harness_error("no snapshot read yet");
+        st.T(a.at("t").get<std::string>()).update(*st.last_snapshot);
+        ret = true;
         return true;
     }
     if (op == "set")
